@@ -81,5 +81,6 @@ def judge_column(impl, k, tau, s_list, c_list, scale_list, rng=None, sample=0.02
     colmax = float(np.max(np.abs(ref))) if len(ref) else 0.0
     tol = 64 * EPS * cnd * (np.abs(ref) + 1e-3 * colmax) + 1e-300
     sl = np.abs(impl - ref) / tol
+    sl = np.where(np.isnan(sl), np.inf, sl)  # a NaN in the implementation's column is never 'within tolerance'
     wi = int(np.argmax(sl))
     return float(sl[wi]), wi, ref[wi], nmp
